@@ -118,6 +118,41 @@ def count_clauses(spec_text):
     return n
 
 
+def loop_body_open(scan, m):
+    """index of the `{` that opens the body of the loop whose keyword match is `m` (None if there is none).
+    `while let PAT = e {` and `for PAT in e {` may carry struct patterns with braces before the body: the body brace
+    is searched only after the `=` resp. `in` that ends the pattern (at bracket depth 0)."""
+    k = m.end()
+    kw = m.group(1)
+    rest = scan[k:]
+    need = None
+    if kw == 'while' and re.match(r'\s*let(?![A-Za-z0-9_])', rest):
+        need = '='
+    elif kw == 'for':
+        need = 'in'
+    d = 0
+    while k < len(scan):
+        ch = scan[k]
+        if ch in '([':
+            d += 1
+        elif ch in ')]':
+            d -= 1
+        elif need is not None:
+            if ch == '{':
+                d += 1
+            elif ch == '}':
+                d -= 1
+            elif d == 0 and need == '=' and ch == '=' and scan[k - 1] not in '=!<>' and scan[k + 1:k + 2] not in ('=', '>'):
+                need = None
+            elif d == 0 and need == 'in' and scan[k:k + 2] == 'in' and not (scan[k - 1].isalnum() or scan[k - 1] == '_') and not (scan[k + 2:k + 3].isalnum() or scan[k + 2:k + 3] == '_'):
+                need = None
+                k += 1
+        elif ch == '{' and d == 0:
+            return k
+        k += 1
+    return None
+
+
 class Generator:
     def __init__(self, repo, template_path):
         self.repo = repo
@@ -367,19 +402,8 @@ class Generator:
             if n > len(hits):
                 raise Undecided(f'{f.id}: lost anchor: loop {n} (function has {len(hits)} loops)')
             m = hits[n - 1]
-            # find body-open brace at bracket depth 0
-            d = 0
-            k = m.end()
-            while k < len(scan):
-                ch = scan[k]
-                if ch in '([':
-                    d += 1
-                elif ch in ')]':
-                    d -= 1
-                elif ch == '{' and d == 0:
-                    break
-                k += 1
-            else:
+            k = loop_body_open(scan, m)
+            if k is None:
                 raise Undecided(f'{f.id}: loop {n} has no body')
             inserts.append((k, '\n' + '\n'.join(lines) + '\n'))
         for k, t in sorted(inserts, reverse=True):
@@ -401,17 +425,8 @@ class Generator:
             n = pr['nth'] or 1
             if n > len(hits):
                 raise Undecided(f"{f.id}: lost anchor: loop {n} for proof splice")
-            d, k = 0, hits[n - 1].end()
-            while k < len(scan):
-                ch = scan[k]
-                if ch in '([':
-                    d += 1
-                elif ch in ')]':
-                    d -= 1
-                elif ch == '{' and d == 0:
-                    break
-                k += 1
-            else:
+            k = loop_body_open(scan, hits[n - 1])
+            if k is None:
                 raise Undecided(f'{f.id}: loop {n} has no body')
             if pr['where'] == 'loopstart':
                 return body[:k + 1] + '\n' + text + body[k + 1:]
